@@ -591,7 +591,13 @@ impl Symbol {
     /// value is escaped using the decimal escape sequence.
     #[must_use]
     pub fn from_octet(ch: u8) -> Self {
-        if ch == b' ' || ch == b'"' || ch == b'\\' || ch == b';' {
+        if ch == b' '
+            || ch == b'"'
+            || ch == b'\\'
+            || ch == b';'
+            || ch == b'('
+            || ch == b')'
+        {
             Symbol::SimpleEscape(ch)
         } else if !(0x20..0x7F).contains(&ch) {
             Symbol::DecimalEscape(ch)
